@@ -33,6 +33,9 @@ type Case interface {
 	chanOf() *chanCore
 	isSend() bool
 	ready(self *Thread) bool
+	// readySelf reports whether the case can proceed without a partner thread
+	// (buffered data / room, closed channel, cancelled context).
+	readySelf() bool
 	// fire executes the case for the current thread (which was scheduled).
 	fire()
 	// deliver completes a pending case of a parked thread t with value v
@@ -56,6 +59,12 @@ func partner(ch *chanCore, wantSend bool, self *Thread) (*Thread, int) {
 		if t == self || t.done || t.pending == nil || t.pending.completed {
 			continue
 		}
+		// only a thread that is really parked can be completed by a partner: a
+		// thread whose announced operation could proceed by itself has not
+		// entered the channel's wait queue yet
+		if !parked(t) {
+			continue
+		}
 		for i, cs := range t.pending.cases {
 			if cs.chanOf() == ch && cs.isSend() == wantSend {
 				return t, i
@@ -63,6 +72,22 @@ func partner(ch *chanCore, wantSend bool, self *Thread) (*Thread, int) {
 		}
 	}
 	return nil, -1
+}
+
+// parked reports whether t's announced channel operation cannot proceed
+// without a partner (so that, in a real run, the goroutine would be waiting in
+// the channel's queue once it got to execute the operation).
+func parked(t *Thread) bool {
+	o := t.pending
+	if o == nil || len(o.cases) == 0 || o.hasDef {
+		return false
+	}
+	for _, c := range o.cases {
+		if c.readySelf() {
+			return false
+		}
+	}
+	return true
 }
 
 // ---- receive ---------------------------------------------------------------
@@ -79,15 +104,20 @@ func RecvCase[T any](ch *Chan[T]) *RecvC[T] { return &RecvC[T]{ch: ch} }
 func (c *RecvC[T]) chanOf() *chanCore { return coreOf(c.ch) }
 func (c *RecvC[T]) isSend() bool      { return false }
 func (c *RecvC[T]) offered() interface{} { return nil }
+func (c *RecvC[T]) readySelf() bool {
+	if c.ch == nil {
+		return false
+	}
+	return c.ch.core.n > 0 || c.ch.core.closed
+}
 func (c *RecvC[T]) ready(self *Thread) bool {
 	if c.ch == nil {
 		return false
 	}
-	k := &c.ch.core
-	if k.n > 0 || k.closed {
+	if c.readySelf() {
 		return true
 	}
-	p, _ := partner(k, true, self)
+	p, _ := partner(&c.ch.core, true, self)
 	return p != nil
 }
 
@@ -167,18 +197,21 @@ func SendCase[T any](ch *Chan[T], v T) *SendC[T] { return &SendC[T]{ch: ch, val:
 func (c *SendC[T]) chanOf() *chanCore   { return coreOf(c.ch) }
 func (c *SendC[T]) isSend() bool        { return true }
 func (c *SendC[T]) offered() interface{} { return c.val }
-func (c *SendC[T]) ready(self *Thread) bool {
+func (c *SendC[T]) readySelf() bool {
 	if c.ch == nil {
 		return false
 	}
 	k := &c.ch.core
-	if k.closed {
-		return true // will panic, as in Go
+	return k.closed || k.n < k.capa // a closed channel panics, as in Go
+}
+func (c *SendC[T]) ready(self *Thread) bool {
+	if c.ch == nil {
+		return false
 	}
-	if k.n < k.capa {
+	if c.readySelf() {
 		return true
 	}
-	p, _ := partner(k, false, self)
+	p, _ := partner(&c.ch.core, false, self)
 	return p != nil
 }
 
@@ -220,6 +253,7 @@ func (c *DoneC) chanOf() *chanCore       { return nil }
 func (c *DoneC) isSend() bool            { return false }
 func (c *DoneC) offered() interface{}    { return nil }
 func (c *DoneC) ready(self *Thread) bool { return c.ctx.Err() != nil }
+func (c *DoneC) readySelf() bool         { return c.ctx.Err() != nil }
 func (c *DoneC) fire() {
 	o := CtxObj(c.ctx)
 	S.touch("ctx-done", []*Obj{o}, nil)
